@@ -14,7 +14,7 @@ BUILDS = {'quick': [('k160', 'stone5'), ('b248', 'stone5')],
 RULE = ('honest tables from the Lean spec builder: n_columns in {1,2,3,4,7,8,16} (+0 and 2^32 as malformed), heights 0..5 (quick) / 0..8, '
         'n_verifier_friendly around height+1 (the row-hash boundary) and 0/huge, query sets single/adjacent/all/sparse; corruptions: every '
         'cell of a queried row +1 (sampled when many), two cells swapped within a row / across rows, one value missing / one extra, '
-        'n_columns declared one higher or higher by 2^32 / 2^64 / 2^128, root +1, sibling +1, trailing auth node. non-trivial = n_columns >= 2 or height >= 1.')
+        'n_columns declared one higher or higher by 2^32 / 2^64 / 2^128, root +1, sibling +1 / +2^160 / +2^248, cell +2^160 / +2^248, trailing auth node. non-trivial = n_columns >= 2 or height >= 1.')
 ASSUMPTIONS = ['Keccak-256/Blake2s-256/Poseidon are modelled (executable Lean), compared with the real crates on every case',
                'a hash collision among the random test values is treated as impossible by the oracle']
 TRUSTED = ['Python oracle: honest/extra-trailing-auth => Ok; any cell changed or moved (to an unequal cell), wrong cell count => not Ok']
@@ -77,6 +77,12 @@ def cases(rng, tier, feats, drv_ok):
             j = rng.below(len(auths))
             add('sibling+1', 'reject', a=auths[:j] + [(auths[j] + 1) % P] + auths[j + 1:])
             add('sibling-missing', 'reject', a=auths[:-1])
+            for e in (160, 248):   # nodes differing only above the digest width
+                j = rng.below(len(auths))
+                add(f'sibling+2^{e}', 'reject', a=auths[:j] + [(auths[j] + (1 << e)) % P] + auths[j + 1:])
+        for e in (160, 248):
+            j = rng.below(len(vals))
+            add(f'cell+2^{e}', 'reject', v=vals[:j] + [(vals[j] + (1 << e)) % P] + vals[j + 1:])
     # malformed column counts: no panic, model agreement
     for nc in [0, 1 << 32, (1 << 32) - 1, P - 1]:
         res.append({'line': f'tdecommit {hexf(rng.felt())} {hexf(nc)} 2 3 0,1 {hexl([rng.felt() for _ in range(rng.below(4))])} {hexl([rng.felt()])}',
